@@ -14,12 +14,12 @@ var (
 func big_(v Value) VBig {
 	switch x := v.(type) {
 	case VBig:
-		return x
+		return x.cur()
 	case VPtr:
 		if x.Nil {
 			return VBig{Nil: true}
 		}
-		return x.load().(VBig)
+		return x.load().(VBig).cur()
 	}
 	panic(engErr("expected math.Int, got %T", v))
 }
